@@ -199,6 +199,36 @@ func raceChildC18(rp *racePlan) {
 	}
 	close(start)
 	wg.Wait()
+	// a creation storm: every worker loads the plan's scripts again and again (several hundred loads per process)
+	var wg2 sync.WaitGroup
+	start2 := make(chan struct{})
+	var loadFailures int64
+	var mu sync.Mutex
+	for w := 0; w < 16; w++ {
+		wg2.Add(1)
+		go func(w int) {
+			defer wg2.Done()
+			<-start2
+			for k := 0; k < 40; k++ {
+				r := &cp.Runners[(w+k)%len(cp.Runners)]
+				d, err := newDyn(&r.World, false)
+				if err != nil {
+					mu.Lock()
+					loadFailures++
+					mu.Unlock()
+					continue
+				}
+				d.apply(&Op{K: "next"})
+				d.h.Close()
+			}
+		}(w)
+	}
+	close(start2)
+	wg2.Wait()
+	if loadFailures > 0 {
+		fmt.Printf("STRESS-MISMATCH %d of 640 concurrent loads of valid scripts failed\n", loadFailures)
+		return
+	}
 	// sequentially afterwards
 	compared := 0
 	for r := range cp.Runners {
